@@ -41,6 +41,47 @@ Import-free (core Lean + the graph IR and planner model), executable.
 namespace RtenVerif.PartialRun
 open RtenVerif.Graph RtenVerif.Planner
 
+/-! ## Operators with subgraphs: the deep determinism flag
+
+`If` and `Loop` own subgraphs.  Since commit "fix: If and Loop are deterministic only if every
+operator in their subgraphs is", `Operator::is_deterministic` of these operators is the
+conjunction over every operator of every branch/body, recursively.  The graph IR
+(`Model/Graph.lean`, shared) has one Boolean `deterministic` per operator node and no subgraphs;
+here it is read as that *deep* flag, and `DTree` is the side table that says what the flag is
+made of: the operator's own flag and, per subgraph, the trees of the subgraph's operators. -/
+
+/-- Own `is_deterministic` flag of an operator and of the operators nested in its subgraphs. -/
+inductive DTree where
+  | node (own : Bool) (subs : List (List DTree))
+deriving Repr, Inhabited
+
+def DTree.own : DTree → Bool
+  | .node o _ => o
+
+mutual
+/-- The recursive `is_deterministic`: own flag, and every operator of every subgraph is deep-deterministic. -/
+def DTree.deep : DTree → Bool
+  | .node own subs => own && deepSubs subs
+def deepSubs : List (List DTree) → Bool
+  | [] => true
+  | ops :: rest => deepOps ops && deepSubs rest
+def deepOps : List DTree → Bool
+  | [] => true
+  | t :: ts => t.deep && deepOps ts
+end
+
+mutual
+/-- The operator itself and every operator at any nesting depth below it. -/
+def DTree.nodes : DTree → List DTree
+  | .node own subs => .node own subs :: nodesSubs subs
+def nodesSubs : List (List DTree) → List DTree
+  | [] => []
+  | ops :: rest => nodesOps ops ++ nodesSubs rest
+def nodesOps : List DTree → List DTree
+  | [] => []
+  | t :: ts => t.nodes ++ nodesOps ts
+end
+
 /-! ## `prune_plan` -/
 
 /-- Loop state of `prune_plan`. -/
